@@ -232,3 +232,37 @@ def heap_stdout(evs):
         elif e["ev"] == "complete":
             out.append(f"tag T{e['f']}")
     return out
+
+
+def wrap_programs(rnd, n):
+    """single-fiber scripts over one buffered channel that make its ring buffer wrap (fill, drain part, refill) while
+    garbage is created; every value is a fresh string or list.  Returns [(source, script)]."""
+    out = []
+    for _ in range(n):
+        cap = rnd.randint(1, 5)
+        lines = [f"let c = chan({cap});", "let junk = nil;"]
+        inbuf = 0
+        k = 0
+        script = []
+        for _ in range(rnd.randint(6, 18)):
+            can_send = inbuf < cap
+            can_recv = inbuf > 0
+            op = rnd.choice(["send"] * 3 + ["recv"] * 2 + ["junk"]) if can_send and can_recv else ("send" if can_send else "recv")
+            if op == "send":
+                k += 1
+                if rnd.random() < 0.5:
+                    lines.append(f'c <- "v" + {k}.str();')
+                else:
+                    lines.append(f'c <- ["v" + {k}.str(), {k}];')
+                inbuf += 1
+            elif op == "recv":
+                lines.append('print("f0", <- c);')
+                inbuf -= 1
+            else:
+                lines.append(f'junk = ["x" + {k}.str(), [1, 2, 3], "y"];')
+        if rnd.random() < 0.5:
+            lines.append("c.close();")
+            for _ in range(inbuf + 1):
+                lines.append('print("f0", <- c);')
+        out.append("\n".join(lines) + "\n")
+    return out
